@@ -25,6 +25,7 @@ static int pid_listed(int64_t pid, int root) {
 /* accounting unit: the SETXATTR events of the three real report functions on node 1 */
 static int ux_n, ux_bad; static int64_t ux_val[4][2]; static int ux_cnt[4][2];
 #endif
+static int unit_b_sig, sorted_n, sorted_node[3];
 /* monitor state */
 static int pass;                 /* 1 wet, 2 dry */
 static int victim = -1, done, natt[3], att[3][6], att_ok[3][6], att_sig[3][6], att_uuid[3][6];
@@ -81,6 +82,9 @@ void vf_on_event(int kind, int64_t a, int64_t b, int64_t c, int64_t d) {
       if (a == N_ATTEMPT) open_attempt((int)b, (int)c, (int)d);
       else if (a == N_RET) { close_attempt(); ret_[pass] = (int)b; }
       else if (a == N_PAUSE) { pause_ov[pass] = (int)b; pause_until[pass] = c; }
+      else if (a >= N_SORTED && a <= N_SORTED + 3) { if (a == N_SORTED) sorted_n = (int)b; else sorted_node[a - N_SORTED - 1] = (int)b; }
+      else if (a == N_UNITVICTIM) { pass = 1; victim = (int)b; cur_sig = 0; }
+      else if (a == N_UNITRET) { VF_CHECK(c == cur_sig, "C17: the reported number of killed processes is the number of SIGKILLs successfully sent"); if (cur_sig > 0 && b == 2) unit_b_sig = 1; victim = -1; }
       else if (a == N_XINIT || a == N_XDONE || a == N_XUUID) {
         nxattr_ev[pass]++;
         VF_CHECK(victim >= 1 && b == victim, "C01: xattrs are only written on the chosen victim");
@@ -159,6 +163,38 @@ int main(void) {
   vf_global_ctors();
   vf_run_harness(harness);
   VF_CHECK(vf_exc == 0, "no exception escapes the kill plugin");
+#if H_MODE == 5
+  {
+    /* unit ranking: kill preference first (prefer > normal > avoid), then the metric, descending; ties in both are free */
+    VF_CHECK(sorted_n == 3, "C03: ranking keeps every candidate");
+    int seen = 0;
+    for (int i = 0; i < 3; i++) { int n = sorted_node[i]; VF_CHECK(n >= 1 && n <= 3, "C03: ranking returns the candidates it was given"); if (n >= 1 && n <= 3) seen |= 1 << n; }
+    VF_CHECK(seen == 14, "C03: ranking is a permutation of the candidates");
+    for (int i = 0; i + 1 < 3; i++) {
+      int x = sorted_node[i], y = sorted_node[i + 1];
+      if (x >= 1 && x <= 3 && y >= 1 && y <= 3) {
+        int64_t px = ND(x, 3), py = ND(y, 3), mx = ND(x, 4), my = ND(y, 4);
+        VF_CHECK(px >= py, "C03: a cgroup marked prefer is ranked before an unmarked one and an unmarked one before one marked avoid, whatever the metric says");
+        if (px == py) VF_CHECK(mx >= my, "C03: among equally preferred cgroups the larger metric ranks first");
+        if (px > py && mx < my) VF_REACH("preference overrides the metric");
+      }
+    }
+    VF_CHECK(0, "WITNESS: oracle reached its end");
+#ifndef __CPROVER__
+    return vf_native_finish();
+#endif
+    return 0;
+  }
+#endif
+#if H_MODE == 4
+  if (nkill_ev[1] > 0) VF_REACH("a process was signalled");
+  if (unit_b_sig) VF_REACH("second victim signalled on the same plugin object");
+  VF_CHECK(0, "WITNESS: oracle reached its end");
+#ifndef __CPROVER__
+  return vf_native_finish();
+#endif
+  return 0;
+#endif
 #if H_MODE == 3
   {
     int64_t nk = vf_cfg[CFG_FLAGS][6];
